@@ -19,7 +19,7 @@ import (
 // for an over-constrained box in ltr).
 func c10WidthEquation(c *core.Check) {
 	p := c.Prog
-	r := c.Rule("R7", "blockLevelWidth_, folded symbolically for the 8 combinations of `auto` among width, margin-left and margin-right and both outcomes of the over-constraint test: the quantity compared with the containing block's width is paddings + borders + width + the non-auto margins; an auto width becomes cb − paddings − borders − margins (auto margins 0); auto margins become 0 when the box overflows, share the remaining space equally when both are auto, or take it when one is; nothing else changes", 12)
+	r := c.Rule("R7", "blockLevelWidth_, folded symbolically for the 8 combinations of `auto` among width, margin-left and margin-right and both outcomes of the over-constraint test: the quantity compared with the containing block's width is paddings + borders + width + the non-auto margins; an auto width becomes cb − paddings − borders − margins (auto margins 0); auto margins become 0 when the box overflows, share the remaining space equally when both are auto, or take it when one is; nothing else changes", 10)
 	fn := p.Fn("html/layout", "blockLevelWidth_")
 	pk := p.ByPath["html/boxes"]
 	if fn == nil || pk == nil {
@@ -335,7 +335,7 @@ func c10CollapseMargin(c *core.Check) {
 // c10CollapseThrough: the margins of a box collapse through it only when nothing separates them (CSS 2.1 §8.3.1).
 func c10CollapseThrough(c *core.Check) {
 	p := c.Prog
-	r := c.Rule("R9", "blockContainerLayout lets the top and bottom margins of a box collapse through it only when its height is auto or 0, its min-height is 0, it has no top or bottom border, no top or bottom padding and no clearance (CSS 2.1 §8.3.1): each of these tests keeps control away from `collapsingThrough = true` when it fails", 7)
+	r := c.Rule("R9", "blockContainerLayout lets the top and bottom margins of a box collapse through it only when its height is auto or 0, its min-height is 0, it has no top or bottom border, no top or bottom padding and no clearance (CSS 2.1 §8.3.1): each of these tests keeps control away from `collapsingThrough = true` when it fails", 5)
 	fn := p.Fn("html/layout", "blockContainerLayout")
 	if fn == nil {
 		r.Anchor("html/layout.blockContainerLayout")
@@ -415,7 +415,7 @@ func c10CollapseThrough(c *core.Check) {
 // c10Provenance: two values whose origin matters in the margin code.
 func c10Provenance(c *core.Check) {
 	p := c.Prog
-	r := c.Rule("R12", "values used by the margin logic have the origin CSS 2.1 gives them: clearance is computed against the collapsed margin (every getClearance call of the block layout receives a result of collapseMargin, the float layout a constant 0), and blockContainerLayout decides whether margins adjoin from the used height of the box (box.Height against auto), never from the computed `height` keyword (a percentage height that computes to auto is auto)", 5)
+	r := c.Rule("R12", "values used by the margin logic have the origin CSS 2.1 gives them: clearance is computed against the collapsed margin (every getClearance call of the block layout receives a result of collapseMargin, the float layout a constant 0), and blockContainerLayout decides whether margins adjoin from the used height of the box (box.Height against auto), never from the computed `height` keyword (a percentage height that computes to auto is auto)", 3)
 	gc := p.Fn("html/layout", "getClearance")
 	if gc == nil {
 		r.Anchor("html/layout.getClearance")
